@@ -3,6 +3,7 @@ package main
 import (
 	"fmt"
 	"go/types"
+	"os"
 
 	"golang.org/x/tools/go/ssa"
 )
@@ -307,6 +308,9 @@ func (e *Exec) strModel(fn *ssa.Function, name string, a []Value) Value {
 	// no symbolic model: when the arguments carry only a few symbolic bytes, enumerate their feasible
 	// values (one path per value, decided bit by bit) and call the native function on concrete strings
 	if cs, ok := e.concretizeStrArgs(a, 3); ok {
+		if os.Getenv("GOSYM_DEBUG") != "" {
+			fmt.Fprintf(os.Stderr, "concretize %s%s\n", name, e.where())
+		}
 		if f := intrinsics[name]; f != nil {
 			return f(e, fn, cs, nil)
 		}
